@@ -40,6 +40,23 @@ def CRASH(mode, focus, q, t, steps=2, shards_q=4, big=False, nops=8):
     args = ["--mode", mode, "--focus", focus, "--nops", str(nops), "--steps", str(steps)] + (["--big"] if big else [])
     return {"cmd": "crash", "args": args, "cases": {"quick": max(1, q // shards_q), "thorough": max(1, t // 16)}, "shards": {"quick": shards_q, "thorough": 16}, "per_shard_cases": True}
 
+IMG_RUN = {"cmd": "image", "mode": "image", "cases": {"quick": 24, "thorough": 400}, "shards": {"quick": 8, "thorough": 16}}
+# directed replay (corpus): history 18 of image seed 1000 — 1616 fat-valued keys, half of them under a 200-bit common prefix;
+# the commit that splits the branch node writes a separator whose last bit is lost (see KNOWN finding candidate F13 in the report)
+IMG_CORPUS = [{"cmd": "image", "mode": "image", "args": ["--only", "18"], "fixed_seed": 1000, "cases": {"quick": 19, "thorough": 19},
+               "shards": {"quick": 1, "thorough": 1}, "corpus": True}]
+IMG_TB = ["Lean decoders of the on-disk formats (lean/NomtModel/Store/Img*.lean) are hand-written from the layout comments of the Rust sources; they are tied to the real files by the image run (every snapshot of a real directory must decode to the oracle's committed map)",
+          "BLAKE3 (arbitrary length) and XXH3-64 (32-byte input, seeded) implemented in Lean, validated by the same run (value hashes, merkle nodes, meta-byte tags and probe positions of real directories)",
+          "harness oracle: BTreeMap of the committed state kept by the history engine (harness/src/db.rs), written to expected.txt",
+          "snapshots are file copies taken at quiescent points (after commit / rollback / reopen returned)"]
+IMG_ASSUME = ["single-threaded histories; snapshots only at quiescent points (crash images are C10/C17)", "tmpfs directory under /dev/shm", "4096-bucket hash tables; page ids of depth <= 40 (the add-then-shift label of PageId::encode overflows 256 bits beyond)"]
+IMG_RULE = ("cases = generated histories of the history engine (session / overlay commits, rollback(n), reopen with another configuration) on a 4096-bucket table, "
+            "batch scale 1..30 (up to several hundred keys), value lengths straddling 1332 / 4092 / 15*4092 bytes (overflow chains), deletions; one protocol line "
+            "`check <snapshot-dir> <expected-file>` per quiescent point: the Lean driver reads meta, ln, bbn, ht, wal and rollback.* itself, decodes them, runs wfImage "
+            "(page ownership, key order, separator ranges, overflow chains, free lists), wfTable (meta bytes, labels, xxh3 tag and probe position), checkMerkle "
+            "(every reachable node of every stored page = nodeAt, elision rule) and compares absImage with the committed map (length + Blake3 of every value). "
+            "Any `bad …` answer is an oracle failure. distinct & non-trivial = snapshots with a non-empty committed state, identified by (cause, expected-state file).")
+
 PROPS = {
     "C07": {
         "runs": [
@@ -50,6 +67,19 @@ PROPS = {
         "trusted_base": HASH_TB + ["Debug rendering of VerifiedMultiProof is used to read its private depth / sibling-range fields"],
         "assumptions": ["unproved in Lean, held by this run only: completeness of find_index_for, correctness / panic-freedom of verify_multi_proof_update on accepted proofs, completeness of from_path_proofs; the `aligned` token printed by the driver re-checks theorem T7.1 at run time on every accepted object",
                         "from_path_proofs is only fed unordered input of length 2 (longer unordered input can make the real loop spin exponentially long)"],
+    },
+    "C16": {
+        "runs": IMG_CORPUS + [dict(IMG_RUN)],
+        "rule": IMG_RULE,
+        "trusted_base": IMG_TB, "assumptions": IMG_ASSUME,
+    },
+    "C19": {
+        "runs": [{"cmd": "image-leak", "mode": "image", "cases": {"quick": 1, "thorough": 1}, "corpus": True, "leaks_fail": True},
+                 dict(IMG_RUN, leaks_fail=True)],
+        "rule": IMG_RULE + " C19 (accounting): for ln and bbn every page number in [1, bump) must be in use by the decoded state (leaf / overflow / branch) or tracked by the "
+                "free list (free-list page or listed free page), and no page may be both; the driver prints ln_leaked / bbn_leaked per snapshot and any non-zero value is reported as "
+                "`C19 leaked pages: …`; hash-table occupancy = number of full meta bytes (ht_full) is cross-checked against the stored page set.",
+        "trusted_base": IMG_TB, "assumptions": IMG_ASSUME,
     },
     "C08": {
         "runs": [
